@@ -11,7 +11,7 @@ def is_corpus(ln):
     return '"ev":"corpus"' in ln
 
 
-def run_family(ctx, pid, cfg, runs, why_prefix, nontrivial, timeout=1500):
+def run_family(ctx, pid, cfg, runs, why_prefix, nontrivial, timeout=1500, classify=None):
     """runs: list of (test name, env). Returns (events, searches, nontrivial count, rejected)."""
     total = 0
     searches = 0
@@ -21,7 +21,7 @@ def run_family(ctx, pid, cfg, runs, why_prefix, nontrivial, timeout=1500):
         if rc != 0:
             raise vk.Inconclusive("driver %s failed:\n%s" % (test, out[-3000:]))
         events = vk.read_ndjson(trace)
-        acc, rej = ctx.validate_trace_sharded("Trace_Search", cfg, trace, header_lines=1, shards=14,
+        acc, rej = ctx.validate_trace_sharded("Trace_Search", cfg, trace, header_lines=1, shards=8,
                                               name="tlcs_" + test, group_start=is_corpus, timeout=timeout)
         total += len(events)
         corpus = None
@@ -40,8 +40,11 @@ def run_family(ctx, pid, cfg, runs, why_prefix, nontrivial, timeout=1500):
             sig = pid + ":" + why.split(":", 1)[1] if ":" in why else pid + ":" + why
             if why.startswith("c01:outcome") and "type:filematch" in e.get("qs", ""):
                 sig = pid + ":outcome:panic:type-filematch"
+            if classify:
+                sig = classify(sig, e, events, r["line"], r)
             bad_lines.add(r["line"])
-            ctx.violation(sig, {"test": test, "line": r["line"], "kind": e["kind"], "mode": e["mode"], "ctx": e["ctx"],
+            ctx.violation(sig, {"test": test, "line": r["line"], "kind": e["kind"], "mode": e["mode"], "ctx": e["ctx"], "ev": e["ev"],
+                                "params": {k: e[k] for k in ("limits", "cancel", "maxdoc", "maxmatch", "stream", "config") if k in e},
                                 "query": e["qs"], "expected": r["expected"], "content": content,
                                 "observed_files": [{k: f.get(k) for k in ("doc", "branches", "lm", "cm") if k in f}
                                                    for f in e["files"] if not d or f["doc"] == d][:4]})
